@@ -356,7 +356,7 @@ def run_c19(ctx):
 
 def run_c20_instr(ctx):
     q = ctx.tier == "quick"
-    mc_stage(ctx, "neighbor_ids", NEIGH[:1], dict(IntVals=[-1, 0, 1, 2, 3, 8, 9, 27, 64, 65, 70] if not q else [-1, 0, 1, 2, 9, 70], DInt=3,
+    mc_stage(ctx, "neighbor_ids", NEIGH[:1], dict(IntVals=[-1, 0, 1, 2, 3, 8, 9, 27, 64, 65, 70] if not q else [-1, 0, 1, 2, 9, 64, 70], DInt=3,
                                                    FloatVals=[F["zero"], F["one"], F["x15"], F["three"], F["nan"], F["mone"], F["inf"], F["h"]] if not q else [F["one"], F["x15"], F["nan"]], DFloat=1))
     mc_stage(ctx, "neighbor_vals", NEIGH[1:], dict(CodePool="recs", IntVals=[-1, 0, 1, 2, 9, 70] if not q else [0, 1, 9, 70], DInt=4,
                                                     FloatVals=[F["one"], F["x15"], F["nan"]] if not q else [F["x15"]], DFloat=1, DCode=1 if q else 2))
@@ -373,10 +373,15 @@ def io_sequence_cases(ctx, n):
         s["input"] = [g.msg() for _ in range(g.r.randint(0, 10))]
         s["output"] = [g.msg() for _ in range(g.r.randint(0, 3))]
         s["rot"] = {"input": g.r.randint(0, 25), "output": g.r.randint(0, 7), "graph": 0}
+        if i % 3 == 0:      # queues of another capacity than the default
+            s["cfg"]["in_cap"], s["cfg"]["out_cap"] = g.r.choice([1, 2, 5, 12, 20]), g.r.choice([1, 2, 5, 8])
+            s["input"] = s["input"][:s["cfg"]["in_cap"]]; s["output"] = s["output"][:s["cfg"]["out_cap"]]
         prog = []
-        for _ in range(g.r.randint(3, 14)):
+        for _ in range(g.r.randint(3, 30)):
             k = g.r.random()
-            if k < 0.75:
+            if k < 0.25:
+                prog += [{"k": "ivec", "v": [g.r.randint(0, 9)]}, {"k": "bvec", "v": [True]}, {"k": "ins", "v": "OUTPUT.WRITE"}]
+            elif k < 0.75:
                 prog.append({"k": "ins", "v": g.r.choice(IO)})
             elif k < 0.85:
                 prog.append({"k": "int", "v": g.int()})
@@ -385,7 +390,7 @@ def io_sequence_cases(ctx, n):
             else:
                 prog.append({"k": "ivec", "v": [g.int() for _ in range(g.r.randint(0, 3))]})
         s["exec"] = prog
-        cases.append({"id": "ioseq-%05d" % i, "pre": s, "acts": [{"a": "steps", "k": 20}]})
+        cases.append({"id": "ioseq-%05d" % i, "pre": s, "acts": [{"a": "steps", "k": 60}]})
     return cases
 
 
@@ -798,6 +803,9 @@ def run_c18(ctx):
                             {"m": "diff", "args": [1]}, {"m": "diff_text", "args": [1]}, {"m": "eq", "args": [1]}, {"m": "edge_size", "args": []},
                             {"m": "get_weight", "args": [origins[pos], d]}, {"m": "to_string", "args": []},
                             {"m": "set_weight", "args": [origins[0], d, W[3]]}, {"m": "diff", "args": [1]}, {"m": "diff_text", "args": [1]},
+                            # a weight that differs from the snapshot's by one unit in the last place
+                            {"m": "clone", "args": []}, {"m": "set_weight", "args": [origins[0], d, W[3] + 1]}, {"m": "diff", "args": [1]}, {"m": "get_weight", "args": [origins[0], d]},
+                            {"m": "set_weight", "args": [origins[0], d, W[3]]}, {"m": "diff", "args": [1]},
                             {"m": "remove_node", "args": [origins[pos]]}, {"m": "diff", "args": [1]}, {"m": "diff_text", "args": [1]},
                             {"m": "to_string", "args": []}, {"m": "edge_size", "args": []}]
                     cs.append({"id": "edgeorder-%03d" % k, "api": "graph", "nid": 1, "ops": ops}); k += 1
@@ -1169,7 +1177,8 @@ def run_c14(ctx):
         cases.append({"id": c["id"], "pre": c["pre"], "steps": 3})
     for i in range(40 if q else 1500):
         s = g.state(depth=2)
-        s["int"] = [g.r.randint(4, 17), g.r.randint(0, 9), g.r.randint(1, 3), g.r.randint(0, 3)] + s["int"]
+        # drawn from small sets, so that equal queries (valid and invalid ones) meet in every order
+        s["int"] = [g.r.choice([4, 9, 16, 17]), g.r.choice([0, 3, 8]), g.r.choice([0, 1, 2, 3, 70]), g.r.randint(0, 3)] + s["int"]
         s["float"] = [gen.f2b(g.r.choice([0.0, 1.0, 1.5, 2.0]))] + s["float"]
         s["exec"] = [ins(g.r.choice(NEIGH))]
         cases.append({"id": "detnb-%05d" % i, "pre": s, "steps": 2})
@@ -1324,6 +1333,12 @@ def run_c15(ctx):
             continue
         for d in ((30, 45) if q else (26, 30, 40, 60, 90)):
             a, b = deep(d, I(1)), deep(d, I(2))
+            # searches that SUCCEED deep inside (both operand orders), next to those that fail
+            for k2, code in enumerate(([a, I(1), a], [I(1), a, I(1)], [a, deep(3, I(1)), a])):
+                s = gen.empty_state()
+                s["code"] = code; s["int"] = [2, 1, 0]; s["bool"] = [True]; s["name"] = ["a"]
+                s["exec"] = [ins(name), a, I(1), a] if name.startswith("EXEC.") else [ins(name)]
+                cs.append({"id": "deepfound-%s-%d-%d" % (name, d, k2), "pre": s, "acts": [{"a": "step"}], "predict": "bounded"})
             s = gen.empty_state()
             s["code"] = [a, b, a]
             s["int"] = [2, 1, 0]; s["bool"] = [True]; s["name"] = ["a"]; s["ivec"] = [[3, 3]]
